@@ -15,6 +15,8 @@ MUTS = {
  # independently seeded changes (patch files under /verif/seeded): all three were missed before the classes they need existed
  "SEEDED-C40-rsa-blob-prefix-dropped": ("C40", "PATCH", "/verif/seeded/C40-rsa-blob-prefix-dropped/patch.diff", ""),   # needs bytes prepended to a blob
  "SEEDED-C39-ecdsa-point-and": ("C39", "PATCH", "/verif/seeded/C39-ecdsa-point-and/patch.diff", ""),                   # needs a point sharing one coordinate with D*G
+ "SEEDED-C38-options-leak": ("C38", "PATCH", "/verif/seeded/C38-options-leak-from-skipped-line/patch.diff", ""),
+ "SEEDED-C38-b-sk-ecdsa-short-coordinate": ("C38", "PATCH", "/verif/seeded/C38-b-sk-ecdsa-short-coordinate/patch.diff", ""),  # needs boundary keys (short EC coordinates)
  "SEEDED-C41-critical-found-sticky": ("C41", "PATCH", "/verif/seeded/C41-critical-found-sticky/patch.diff", ""),       # needs >= 2 critical options, repeated calls
  "C41-critical-default-accept": ("C41", "ssh/certs.go", "\t\tfound := false\n\t\tfor _, supp := range c.SupportedCriticalOptions {",
                                  "\t\tfound := len(c.SupportedCriticalOptions) == 0\n\t\tfor _, supp := range c.SupportedCriticalOptions {"),  # pkgtest FAIL
